@@ -443,10 +443,16 @@ func MkNode(name string, labels map[string]string, taints ...corev1.Taint) *core
 
 // Tpl builds the template with the given tag (image of the single container "main").
 func Tpl(tag string) corev1.PodTemplateSpec {
-	return corev1.PodTemplateSpec{
+	t := corev1.PodTemplateSpec{
 		ObjectMeta: metav1.ObjectMeta{Labels: map[string]string{"app": "agent"}},
 		Spec:       corev1.PodSpec{Containers: []corev1.Container{{Name: "main", Image: tag}}},
 	}
+	// "X+label:k=v" : template X carrying an extra (possibly misleading) label
+	if i := strings.Index(tag, "+label:"); i > 0 {
+		kv := strings.SplitN(tag[i+len("+label:"):], "=", 2)
+		t.Labels[kv[0]] = kv[1]
+	}
+	return t
 }
 
 func MkEDS(ns, name string, tpl corev1.PodTemplateSpec) *v1.ExtendedDaemonSet {
